@@ -19,7 +19,7 @@ package plugin
 
 //@ type Client
 //@   guarded_by l: exited, runner, client, processKilled, address, ghost:launched   [C20.guard] [C19.once]
-//@   inv inv_client(this)   [C19.once]
+//@   inv inv_client(this)   [C19.once] [C03.d]
 //@   rely l: old(this.address) != nil ==> this.address == old(this.address)   [C19.addr]
 //@   rely l: old(this.client) != nil ==> this.client == old(this.client)   [C19.client]
 //@   rely l: launched[this] >= old(launched[this])   [C19.once]
